@@ -64,7 +64,7 @@ def name_domain(tier):
                     out.append("a" * (L - c * w) + CH[w] * c)  # ASCII prefix + multibyte suffix, L bytes
                     if c < k and tier == "thorough":
                         out.append(CH[w] * c + "a" * (L - c * w))
-    out += ["cafe\u0301", "e\u0301" * 10, "e\u0301" * 11, "a" * 29 + "e\u0301", "a" * 30 + "e\u0301", "\ufb01x", "\u212bngstrom", "\ufb2a\u05dc\u05d5\u05dd",
+    out += ["Boiler 100%", "50% off", "%s%s", "%(name)s", "{}{}", "{0!r}", "a\\x00b", "${HOME}", "cafe\u0301", "e\u0301" * 10, "e\u0301" * 11, "a" * 29 + "e\u0301", "a" * 30 + "e\u0301", "\ufb01x", "\u212bngstrom", "\ufb2a\u05dc\u05d5\u05dd",
             "\u1e9b\u0323", "\u0041\u030a", "\uff21\uff22", "\u2460\u2461", "Boiler\u00a0room", "x\u200by",
             CH2ALT * 16, CH2ALT * 17, "caf" + CH2ALT, "a" + CH[2], CH[2] + "a", "ab", "a", CH[2], CH[4], " " * 2, "a\x00b", "x" * 33, "x" * 32]
     seen, res = set(), []
@@ -162,6 +162,9 @@ def arg_cases(tier):
     for form in ("list", "tuple"):
         for days in ([0], [0, 1], [6, 0], [2, 2], [0, 1, 0], [3, 4, 5, 3], [6, 6], [0, 1, 2, 3, 4, 5, 6], [0, 1, 2, 3, 4, 5, 6, 0]):
             out.append((1, "create_schedule", {"start": "13:00", "end": "14:00", "days": days, "days_form": form}))
+    # a day set is a day set, mutable or not (the empty one included)
+    for days in ([], [0], [6], [2, 4], [0, 1, 2, 3, 4, 5, 6]):
+        out.append((1, "create_schedule", {"start": "13:00", "end": "14:00", "days": days, "days_form": "frozenset"}))
     for bad in clock_strings_bad():
         out.append((1, "create_schedule", {"start": bad, "end": "14:00", "days": [0]}))
         out.append((1, "create_schedule", {"start": "13:00", "end": bad, "days": []}))
@@ -240,7 +243,7 @@ def expect(case):
     if op == "create_schedule":
         days = a["days"]
         form = a.get("days_form", "set")
-        if form != "set" and len(set(days)) != len(days):
+        if form not in ("set", "frozenset") and len(set(days)) != len(days):
             return ("raise",)
         if not valid_clock(a["start"]) or not valid_clock(a["end"]):
             return ("raise",)
